@@ -120,17 +120,64 @@ def check_config(rep, prog):
     for meth, fn in (("min", "fmin"), ("max", "fmax")):
         it, r = run(ANG + "Angle::" + meth, [a, b])
         req(mag(it, r) == ("symop", fn, S.sym("a"), S.sym("b")), "U2", meth, prog.body(ANG + "Angle::" + meth).where(), "a.%s(b) = Angle(f32::%s(a, b))" % (meth, meth))
-    # ---- U3 wrap (fp only)
+    # ---- U3 wrap (fp only): on EVERY path through wrap (paths enumerated over the comparisons the domain cannot decide)
     if ANG + "Angle::wrap" in prog.bodies:
-        it, r = run(ANG + "Angle::wrap", [a, angle(S.sym("lo")), angle(S.sym("hi"))])
-        m = mag(it, r)
-        ok = False
-        if isinstance(m, tuple) and m[0] == "symop" and m[1] == "Add":
-            for base, rem in ((m[2], m[3]), (m[3], m[2])):
-                if base == S.sym("lo") and isinstance(rem, tuple) and rem[0] == "symop" and rem[1] == "rem_euclid":
-                    ok = S.to_poly(rem[2]) == PL.padd({("a",): Fraction(1)}, {("lo",): Fraction(-1)}) and \
-                        S.to_poly(rem[3]) == PL.padd({("hi",): Fraction(1)}, {("lo",): Fraction(-1)})
-        req(ok, "U3", "wrap", prog.body(ANG + "Angle::wrap").where(), "a.wrap(lo, hi) = lo + rem_euclid(a - lo, hi - lo)")
+        import math
+        wb = prog.body(ANG + "Angle::wrap")
+
+        def closed_form(m):
+            if isinstance(m, tuple) and m[0] == "symop" and m[1] == "Add":
+                for base, rem in ((m[2], m[3]), (m[3], m[2])):
+                    if base == S.sym("lo") and isinstance(rem, tuple) and rem[0] == "symop" and rem[1] == "rem_euclid":
+                        return S.to_poly(rem[2]) == PL.padd({("a",): Fraction(1)}, {("lo",): Fraction(-1)}) and \
+                            S.to_poly(rem[3]) == PL.padd({("hi",): Fraction(1)}, {("lo",): Fraction(-1)})
+            return False
+        try:
+            outs = S.explore(lambda orc: run(ANG + "Angle::wrap", [a, angle(S.sym("lo")), angle(S.sym("hi"))], oracle=orc), max_paths=64)
+        except A.Undecided as e:
+            raise common.Infra("C18.U3: Angle::wrap could not be evaluated symbolically (%s)" % e)
+        all_ok = True
+        unverified = []
+        for trace, (it, r) in outs:
+            m = mag(it, r)
+            if closed_form(m):
+                rep.inst("C18.U3", "a.wrap(lo, hi) = lo + rem_euclid(a - lo, hi - lo) [%s]: holds" % S.fmt_trace(trace)[:120], config=cfg)
+                continue
+            # another formula on this path: it may be an equivalent special case; only a concrete angle that follows the path and lands
+            # outside the interval or off the congruence class refutes it
+            wit = None
+            try:
+                for lo, hi in ((0.0, 2 * math.pi), (-math.pi, math.pi), (1.0, 2.5), (-10.0, -4.0)):
+                    L = hi - lo
+                    for k in (-3.4, -2.0, -1.6, -1.0, -0.3, 0.0, 0.4, 1.0, 1.7, 2.0, 3.3, 40.2, -40.2):
+                        pt = {"a": lo + k * L, "lo": lo, "hi": hi}
+                        if not S.trace_holds(trace, pt):
+                            continue
+                        v = S.num_eval(m, pt)
+                        turns_off = (v - pt["a"]) / L
+                        inside = lo - 1e-9 <= v <= hi + 1e-9
+                        congruent = abs(turns_off - round(turns_off)) < 1e-6
+                        if not (inside and congruent):
+                            wit = (pt, v, inside, congruent)
+                            break
+                    if wit:
+                        break
+            except S.NotNumeric as e:
+                raise common.Infra("C18.U3: a path of Angle::wrap has a form the rule cannot evaluate (%s)" % e)
+            if wit is None:
+                unverified.append(S.fmt_trace(trace)[:200])
+                continue
+            all_ok = False
+            rep.inst("C18.U3", "a.wrap(lo, hi) [%s]: FAILS at %s" % (S.fmt_trace(trace)[:120], wit[0]), config=cfg)
+            rep.violate("C18.U3", "U3|wrap", wb.where(),
+                        "Angle::wrap leaves its interval or the congruence class on the path taken when %s: a = %.6g wrapped into [%.6g, %.6g] gives %.6g (%s)"
+                        % (S.fmt_trace(trace)[:200], wit[0]["a"], wit[0]["lo"], wit[0]["hi"], wit[1],
+                           "outside the interval" if not wit[2] else "not a whole number of interval lengths away"), config=cfg)
+        if all_ok and unverified:
+            raise common.Infra("C18.U3: Angle::wrap has %d path(s) [%s] whose result is not lo + rem_euclid(a - lo, hi - lo) and that no sample angle refutes; "
+                               "rule needs re-confirmation" % (len(unverified), unverified[0]))
+        if all_ok:
+            rep.inst("C18.U3", "a.wrap(lo, hi) = lo + rem_euclid(a - lo, hi - lo) on all %d path(s)" % len(outs), config=cfg)
     # ---- U4 coordinate changes (fp only)
     if "fp" in feats:
         sin = lambda v: ("symop", "sin", v, None)  # noqa: E731
